@@ -10,6 +10,14 @@ if os.path.exists(md):
     blocks = re.findall(r"```\n?(fix:.*?)```", t, re.S)
     if blocks:
         msg = blocks[-1].strip()
+    else:
+        m1 = re.search(r"`(fix:[^`]+)`", t)
+        m2 = re.search(r"\n    (fix:.*)$", t, re.S)
+        if m2:
+            msg = "\n".join(l[4:] if l.startswith("    ") else l for l in m2.group(1).rstrip().split("\n"))
+            msg = "fix:" + msg[4:] if not msg.startswith("fix:") else msg
+        elif m1:
+            msg = m1.group(1).strip()
 if len(sys.argv) > 2:
     msg = sys.argv[2]
 if not msg:
